@@ -127,7 +127,7 @@ Definition wstep_core (fixed : bool) (w : world) (o : op) : world * wout :=
   | OLazyExec _ => (w, WUnit)
   | OJoin k ms =>
       let '(e', j) := env_join (w_env w) (a_view (w_alloc w)) (eids_of (a_entities (w_alloc w))) (w_hs w) k ms in
-      (with_env w e', WJoin j)
+      (with_env w e', jout_wout j)
   | OCs c => let '(e', r) := env_csop (w_env w) (w_hs w) c in (with_env w e', cs_out r)
   | OBad => (w, WSkip)
   end.
